@@ -500,9 +500,15 @@ impl Compiler {
                 result
             }
             Node::MainBlock { body, local_count } => {
+                let Ok(local_count) = u8::try_from(*local_count) else {
+                    return self.error(ErrorKind::FunctionPropertyLimit {
+                        property: "locals".into(),
+                        amount: *local_count,
+                    });
+                };
                 self.compile_frame(
                     FrameParameters {
-                        local_count: *local_count as u8,
+                        local_count,
                         expressions: body,
                         args: &[],
                         captures: &[],
@@ -675,9 +681,24 @@ impl Compiler {
             is_generator,
         } = params;
 
+        let frame_args = self.collect_args(args, ctx)?;
+        // The frame's registers are addressed with a u8: self + locals + captures + unnamed args
+        // must leave room for at least one temporary register.
+        let placeholder_count = frame_args
+            .iter()
+            .filter(|arg| matches!(arg, Arg::Placeholder))
+            .count();
+        let local_registers = 1 + local_count as usize + captures.len() + placeholder_count;
+        if local_registers > u8::MAX as usize {
+            return self.error(ErrorKind::FunctionPropertyLimit {
+                property: "local registers".into(),
+                amount: local_registers,
+            });
+        }
+
         self.frame_stack.push(Frame::new(
             local_count,
-            &self.collect_args(args, ctx)?,
+            &frame_args,
             captures,
             output_type,
             is_generator,
